@@ -1472,7 +1472,16 @@ func (a *align) MaxCharStats(ignoreGaps, ignoreNs bool) (out []uint8, occur []in
 			mapstats[uint8(unicode.ToUpper(rune(seq.sequence[site])))]++
 		}
 
-		for k, v := range mapstats {
+		// Characters are visited in a fixed order, so that ties are always
+		// broken the same way (map iteration order is random)
+		keys := make([]int, 0, len(mapstats))
+		for k := range mapstats {
+			keys = append(keys, int(k))
+		}
+		sort.Ints(keys)
+		for _, ki := range keys {
+			k := uint8(ki)
+			v := mapstats[k]
 			// If we exclude gaps and it is a gap: we do nothing
 			// Otherwise, if v > max, we update max occurence char
 			if !(ignoreGaps && k == GAP) && !(ignoreNs && (k == all || k == allc)) {
